@@ -3,9 +3,9 @@ modular: a caller is checked against the callee's contract), so obligations are 
 GROUPS = {
     # the header block is part of every message parse and of parse_headers
     '@HDR': 'C02 C03 C04 C05 C06 C07 C08 C10 C11 C14 C15 C16 C17 C18',
-    '@REQ': 'C02 C03 C04 C05 C06 C10 C11 C15 C16 C18',
-    '@RESP': 'C02 C03 C04 C05 C07 C10 C11 C15 C16 C18',
-    '@MSG': 'C02 C03 C04 C05 C06 C07 C10 C11 C15 C16 C18',
+    '@REQ': 'C02 C03 C04 C05 C06 C10 C11 C15 C16 C17 C18',
+    '@RESP': 'C02 C03 C04 C05 C07 C10 C11 C15 C16 C17 C18',
+    '@MSG': 'C02 C03 C04 C05 C06 C07 C10 C11 C15 C16 C17 C18',
     '@CHUNK': 'C09 C02 C03 C11 C13',
     # the cursor: everything that parses
     '@ALL': 'C01 C02 C03 C04 C05 C06 C07 C08 C09 C10 C11 C13 C14 C15 C16 C17 C18 C20',
